@@ -470,6 +470,43 @@ fn do_run(src: &str, modules: &[(String, Vec<u8>)], budget: u64, depth: u64, cas
     format!("{} D{}", result, after - before)
 }
 
+/// the Rust std function a MATH procedure names, evaluated directly (the libm oracle of the model)
+fn do_math(line: &str) -> String {
+    let mut it = line.split(' ');
+    let name = it.next().unwrap_or("");
+    let a: Vec<f64> = it.filter(|x| !x.is_empty()).map(|h| f64::from_bits(u64::from_str_radix(h, 16).unwrap())).collect();
+    let g = |i: usize| a.get(i).copied().unwrap_or(f64::NAN);
+    let r = match name {
+        "sin" => f64::sin(g(0)),
+        "cos" => f64::cos(g(0)),
+        "tan" => f64::tan(g(0)),
+        "asin" => f64::asin(g(0)),
+        "acos" => f64::acos(g(0)),
+        "atan" => f64::atan(g(0)),
+        "atan2" => f64::atan2(g(0), g(1)),
+        "sinh" => f64::sinh(g(0)),
+        "cosh" => f64::cosh(g(0)),
+        "tanh" => f64::tanh(g(0)),
+        "asinh" => f64::asinh(g(0)),
+        "acosh" => f64::acosh(g(0)),
+        "atanh" => f64::atanh(g(0)),
+        "exp" => f64::exp(g(0)),
+        "log" => f64::log(g(0), g(1)),
+        "log10" => f64::log10(g(0)),
+        "log2" => f64::log2(g(0)),
+        "ln" => f64::ln(g(0)),
+        "sqrt" => f64::sqrt(g(0)),
+        "round" => f64::round(g(0)),
+        "floor" => f64::floor(g(0)),
+        "ceil" => f64::ceil(g(0)),
+        "trunc" => f64::trunc(g(0)),
+        "show" => return hex(format!("{}", g(0)).as_bytes()),
+        "parse" => return "?".to_string(),
+        _ => f64::NAN,
+    };
+    format!("{:016x}", r.to_bits())
+}
+
 fn main() {
     let args: Vec<String> = std::env::args().collect();
     if args.len() < 4 {
@@ -497,6 +534,12 @@ fn main() {
         *LAST_PANIC.lock().unwrap() = Some(format!("{} @ {}", msg, loc));
     }));
 
+    if mode == "math" {
+        for line in cases.lines() {
+            writeln!(out, "{}", do_math(line)).unwrap();
+        }
+        return;
+    }
     for (case_no, line) in cases.lines().enumerate() {
         let mut fields = line.split(' ');
         let src_bytes = unhex(fields.next().unwrap_or(""));
